@@ -19,7 +19,7 @@ SIG = bytes([0x49, 0x43, 0x43, 0x5F, 0x50, 0x52, 0x4F, 0x46, 0x49, 0x4C, 0x45, 0
 CHUNK = 65519
 STANDALONE = set(range(0xD0, 0xDA)) | {0x01}
 ALLSAVE = ",".join("%d:65535" % c for c in [254] + list(range(224, 240)))
-CSNUM = {"gray": 1, "rgb": 2, "ycc": 3, "cmyk": 4, "ycck": 5, "yccin": 3}
+CSNUM = {"gray": 1, "rgb": 2, "ycc": 3, "cmyk": 4, "ycck": 5, "yccin": 3, "ycckin": 5, "unk2": 0, "unk3": 0, "unk4": 0}
 # jpeg_set_colorspace: (id, h, v, tq, dc, ac)
 CSCOMPS = {
     1: [(1, 1, 1, 0, 0, 0)],
@@ -565,16 +565,25 @@ def hp_cases(ctx):
         if lossless and "rblocks" in p and rng.chance(7, 8):
             p["rblocks"] = min(65535, W * rng.range(1, 3)) if W * 1 <= 65535 else 0
         cases.append({"kind": "hp", "api": "tj", "pf": pf, "W": W, "H": H, "bits": bits, "p": p})
+    # the full matrix in_color_space x process x {library markers, no markers}, on every run
+    for cs in ["gray", "ycc", "rgb", "cmyk", "ycck", "yccin", "ycckin", "unk2", "unk3", "unk4"]:
+        for mode, prec in (("b", 8), ("l", 8), ("l", 12), ("p", 8)):
+            for wjwa in (("d", "d"), ("0", "0")):
+                if mode == "p" and cs == "unk2":
+                    continue
+                cases.append({"kind": "hp", "api": "jpeg", "cs": cs, "W": 9, "H": 7, "prec": prec, "mode": mode, "psv": rng.range(1, 7), "pt": 0,
+                              "samp": "-", "restart": 0, "jfif": "-", "wj": wjwa[0], "wa": wjwa[1], "ids": "-"})
     for i in range(ctx.n(250, 2500)):          # libjpeg API
-        cs = rng.choice(["gray", "ycc", "rgb", "cmyk", "ycck", "ycc"])
+        # every in_color_space x process: lossless keeps the input colourspace (YCbCr, YCCK and UNKNOWN inputs included)
+        cs = rng.choice(["gray", "ycc", "rgb", "cmyk", "ycck", "ycc", "yccin", "yccin", "ycckin", "unk2", "unk3", "unk4"])
         mode = "".join(ch for ch in "pao" if rng.chance(1, 3))
-        lossless = rng.chance(1, 4)
+        lossless = rng.chance(1, 3)
         if lossless:
             mode = mode.replace("p", "") + "l"
             prec = rng.range(2, 16)
         else:
             prec = rng.choice([8, 8, 12])
-        nc = len(CSCOMPS[CSNUM[cs]])
+        nc = int(cs[3:]) if cs.startswith("unk") else len(CSCOMPS[CSNUM[cs]])
         samp = "-"
         if rng.chance(1, 2):
             for _try in range(20):
@@ -597,15 +606,17 @@ def hp_cases(ctx):
         cases.append({"kind": "hp", "api": "jpeg", "cs": cs, "W": W, "H": H, "prec": prec, "mode": mode or "b",
                       "psv": rng.range(1, 7), "pt": rng.range(0, prec - 1), "samp": samp,
                       "restart": restart, "jfif": jf,
-                      "wj": rng.choice(["d", "d", "d", "0", "1"]), "wa": rng.choice(["d", "d", "d", "0", "1"])})
+                      "wj": rng.choice(["d", "d", "d", "0", "1"]), "wa": rng.choice(["d", "d", "d", "0", "1"]),
+                      # component-id conventions: the library's, or 1,2,3 / 'R','G','B' / arbitrary ones set by the application
+                      "ids": rng.choice(["-", "-", "-", "-", ".".join(str(x) for x in rng.choice([[1, 2, 3, 4], [82, 71, 66, 65], [0, 1, 2, 3], [rng.range(0, 255) for _ in range(4)]])[:nc])])})
     return cases
 
 
 def hp_line(c):
     if c["api"] == "tj":
         return "tjc %d %d %d %d - %s" % (c["pf"], c["W"], c["H"], c["bits"], ",".join("%s=%d" % kv for kv in c["p"].items()) or "-")
-    return "jc %d %d %s %s %d %s %d %d %d %s %s %s 0 - -" % (c["W"], c["H"], c["cs"], c["samp"], c["prec"], c["mode"], c["psv"], c["pt"],
-                                                        c["restart"], c["jfif"], c["wj"], c["wa"])
+    return "jc %d %d %s %s %d %s %d %d %d %s %s %s 0 - - %s" % (c["W"], c["H"], c["cs"], c["samp"], c["prec"], c["mode"], c["psv"], c["pt"],
+                                                           c["restart"], c["jfif"], c["wj"], c["wa"], c.get("ids", "-"))
 
 
 def hp_expect(c):
@@ -642,7 +653,10 @@ def hp_expect(c):
         jcs = CSNUM[c["cs"]]
         if lossless and c["cs"] in ("ycc", "ycck"):
             jcs = 2 if c["cs"] == "ycc" else 4      # jpeg_default_colorspace for RGB / CMYK input
-        comps = [list(t) for t in CSCOMPS[jcs]]
+        comps = [list(t) for t in CSCOMPS[jcs]] if jcs else [[i, 1, 1, 0, 0, 0] for i in range(int(c["cs"][3:]))]
+        if c.get("ids", "-") != "-" and not lossless:
+            for k, v in enumerate(c["ids"].split(".")[:len(comps)]):
+                comps[k][0] = int(v)
         if c["samp"] != "-" and not lossless:
             for k, s in enumerate(c["samp"].split(",")):
                 comps[k][1], comps[k][2] = [int(x) for x in s.split("x")]
@@ -753,13 +767,17 @@ def run_hp(ctx, R, cases):
                         bad.append("JFIF version %s" % kv["ver"])
                     if int(kv["jfif"]) != int(e["wj"]) or int(kv["adobe"]) != int(e["wa"]):
                         bad.append("saw_JFIF/saw_Adobe = %s/%s, written %d/%d" % (kv["jfif"], kv["adobe"], e["wj"], e["wa"]))
-                    if c["wj"] == "d" and c["wa"] == "d" and int(kv["cs"]) != e["jcs_written"]:
-                        bad.append("jpeg_color_space %s, written %d" % (kv["cs"], e["jcs_written"]))
+                    if (c["wj"] == "d" and c["wa"] == "d" or e["lossless"]) and int(kv["cs"]) != e["jcs_written"] and \
+                            not (e["jcs_written"] == 0 and len(e["comps"]) in (1, 3, 4)):
+                        bad.append("jpeg_color_space %s after jpeg_read_header, the compressor used %d (in_color_space %s, %s)" % (
+                            kv["cs"], e["jcs_written"], c["cs"], "lossless" if e["lossless"] else "lossy"))
                 if "jcs" in e and int(kv["cs"]) != e["jcs"]:
                     bad.append("jpeg_color_space %s, expected %d" % (kv["cs"], e["jcs"]))
             sig = "header-rd"
             if bad and any("table selectors" in b for b in bad) and e["lossless"]:
                 sig = "lossless-sos-td0:" + c.get("cs", "tj")
+            if bad and any("jpeg_color_space" in b for b in bad):
+                sig = "colorspace-inference:%s:%s" % (c.get("cs", "tj"), "lossless" if e["lossless"] else "lossy")
             for b in bad[:1]:
                 ctx.violation("jpeg_read_header does not return what was used to compress: " + "; ".join(bad), {"case": c, "impl": h[:400]}, signature=sig)
             R.corr("header-read", "rd", m, h, c, bool(bad))
